@@ -324,4 +324,22 @@ CHECKS = {
         "level_text": "Seeded exploration of histories x backup points x restore targets with the real engine started on every restored directory, plus sampled single-byte damage and synthetic retention timelines.",
         "level_note": "trusted base: live census as the expected collection (C02 shows restart == live), libc seam for clock and mtimes, byte-wise directory comparison",
     },
+    "C17": {
+        "level": "exploration",
+        "design_ref": "DESIGN.md section 5/C17",
+        "engine": "E4 instrumented executors: Miri (seeded thread scheduler, one build per SIMD kernel family) + AddressSanitizer",
+        "technique": "deterministic simulation of the index under an interpreter that checks every memory access: seeded insert/search/cancel sequences with reader, writer and cancellation threads interleaved by Miri's seeded scheduler, one build per kernel family; the same workload at larger sizes natively under AddressSanitizer; results compared with a brute-force reference",
+        "rule": "row = (dimension 1..130 biased to k*4+-1, k*8+-1, k*16+-1, k*32+-1 and fixed boundary values; metric cosine/euclidean/inner product; M in {4,5,8,16,33,64}; ef_construction in {1,4,16,50}; capacity n-1 / n / n+1 / roomy; n = 2..11 vectors under Miri, 20..419 under ASan): "
+                "sequential add_vector of a prefix (1/5 duplicate vectors, 1/8 duplicate ids), complete_sequential_inserts, parallel_insert_batch of the rest up to capacity, one batch and one insert beyond capacity, inserts and searches with dimension +-1 / +3 / empty; "
+                "3 (30 under ASan) searches with k in {1,2,3,10,1000,10000} and ef in {default,1,k,64 or 10000,1..40}, each repeated with a cancellation flag already set or not; in 2/3 of the rows two reader threads (3 searches each, shared cancellation flag), a thread that sets the flag after a PRNG number of reader steps and a writer thread inserting under the write lock. "
+                "Miri rows: one build per kernel family selected by compile-time target features (sse2 baseline; +avx2,+fma; +avx512f,+avx2,+fma -- Miri reports exactly these as detected, the workload prints and the runner checks the selected family), schedule seed per process, preemption rate 0.1. ASan rows: native release build, best kernel of the machine. "
+                "Violation: any Miri undefined-behaviour / data-race report, any AddressSanitizer report, or a search result whose id was never inserted / is duplicated / whose distance differs from the f64 reference. evaluations = rows completed. distinct_nontrivial = distinct (kernel row, dimension) pairs.",
+        "assumptions": ["the scalar kernel cannot be selected on x86_64 (sse2 is always detected) and is not run", "natively only the best kernel of this machine (AVX-512) runs under ASan; the lower families run under Miri only, at small sizes",
+                        "a Miri 'unsupported operation' in a kernel row is reported as 'row not run', never as a violation", "the input/configuration part of this property is input generation under an instrumented executor; simulation contributes the seeded interleaving of readers, writer and cancellation"],
+        "expected_probes": [],
+        "tiers": {"quick": {"runs_per_worker": 0, "budget_s": 40, "asan_rows_per_worker": 25}, "thorough": {"runs_per_worker": 0, "budget_s": 900, "asan_rows_per_worker": 600}},
+        "level_text": "Seeded exploration of index configurations and operation sequences under Miri (three kernel families, seeded schedules) and AddressSanitizer, with a brute-force result reference.",
+        "level_note": "trusted base: Miri's and ASan's detection; kernel family selection verified by the workload's own feature probe",
+        "runner": (lambda *a: __import__("c17runner").run(*a)),
+    },
 }
